@@ -89,6 +89,11 @@ def run(ctx):
             for (tol, smart) in ([ctx.rng.choice(MODES)] if quick else [(False, False), ctx.rng.choice(MODES[1:])]):
                 cases.append(mk("mu%d:%d%d" % (nexp, tol, smart), text, tol, smart))
             nexp += 1
+    # scaled instances: repetitions / nestings beyond the small scope, well-formed and malformed
+    from props import scale
+    for s in scale.items(ctx, quick, malformed=None):
+        for (tol, smart) in [(False, False), ctx.rng.choice(MODES[1:])]:
+            cases.append(mk("%s:%d%d" % (s["id"], tol, smart), s["text"].encode(), tol, smart))
     # byte-level inputs: random fragment sequences and mutated fixtures (shared with C10)
     for c in c10.random_inputs(ctx, 400 if quick else 6000, 14 if quick else 30) + c10.fixture_inputs(ctx, 200 if quick else 3000):
         tol, smart = ctx.rng.choice(MODES)
